@@ -9,7 +9,7 @@ import tempfile
 from vf import common, findings
 from vf.props import C15, deductive
 
-KEYS = ["doctrans.sync_properties:sync_properties", "vf.contracts.laws:replace_at_location", "vf.contracts.laws:sync_one_property", "doctrans.ast_utils:it2literal", "doctrans.ast_utils:find_in_ast", "doctrans.ast_utils:annotate_ancestry", "doctrans.sync_properties:sync_property", "doctrans.ast_utils:RewriteAtQuery.generic_visit", "doctrans.ast_utils:RewriteAtQuery.visit_FunctionDef"]
+KEYS = ["doctrans.pure_utils:strip_split", "doctrans.sync_properties:sync_properties", "vf.contracts.laws:replace_at_location", "vf.contracts.laws:sync_one_property", "doctrans.ast_utils:it2literal", "doctrans.ast_utils:find_in_ast", "doctrans.ast_utils:annotate_ancestry", "doctrans.sync_properties:sync_property", "doctrans.ast_utils:RewriteAtQuery.generic_visit", "doctrans.ast_utils:RewriteAtQuery.visit_FunctionDef"]
 
 INPUT = '''from typing import Literal
 
